@@ -233,6 +233,15 @@ def guard_rules(ctx):
     from rules import c02, c19
     c02.combine_rules(ctx, "R-C16.G.combine")
     c19.new_rules(ctx, "R-C16.G.prio2-new")
+    # Prio2: a leader share of the wrong length (too short OR too long) is refused before it is split
+    for nm in ("unpack_proof", "unpack_proof_mut"):
+        G(ctx, rule, dict(name=nm, id_re=r"^vdaf::prio2::client::%s$" % nm), "Ne", Len(Arg(1)), Call("proof_length", Arg(2)),
+          "Prio2 %s: len(proof) != proof_length(dimension) -> Err" % nm)
+    try:
+        fv = ctx.fn(rule, name="generate_verification_message", id_re=r"^vdaf::prio2::server::generate_verification_message$")
+        ctx.require_try_call(rule, fv, Call("unpack_proof", Arg(3), Arg(1)), desc="Prio2 verify: unpack_proof(share, dimension)?")
+    except Skip:
+        pass
     # --- Poplar1 / IDPF
     G(ctx, rule, dict(name="shard_with_random", self_adt="vdaf::poplar1::Poplar1", trait=""), "Ne", Len(Arg(3)), Field(Arg(1), "bits"), "Poplar1 shard: len(input) != bits -> Err")
     G(ctx, rule, dict(name="eval", self_adt="idpf::Idpf"), "Gt", Arg(2), Lit(1), "Idpf::eval: agg_id > 1 -> Err")
@@ -244,7 +253,7 @@ def guard_rules(ctx):
     G(ctx, rule, dict(name="from_unsigned", self_adt="dp::Rational"), "Eq", ThroughCasts(Arg(2)), Or(Lit(0), Sym("ZERO")), "Rational::from_unsigned: denominator == 0 -> Err")
     for adt in ("dp::ZCdpBudget", "dp::PureDpBudget"):
         G(ctx, rule, dict(name="new", self_adt=adt), "Eq", Mentions(Arg(1)), Sym("ZERO"), "%s::new: epsilon == 0 -> Err" % adt.split("::")[-1])
-    ctx.floor(rule, 45)
+    ctx.floor(rule, 48)
 
 
 _run0 = run
